@@ -31,7 +31,10 @@ def one_per_line(rng, n_lines):
         if k < 0.6:
             s = asm.statement(rng)
         elif k < 0.7:
-            s = rng.choice([".text", ".data", ".asciz \"hi\"", ".align 2", ".space 8"])
+            # data directives too: their operand loop runs across newlines, so the line after one
+            # is where an over-eager loop would bite (no generated line starts with an immediate)
+            s = rng.choice([".text", ".data", ".asciz \"hi\"", ".align 2", ".space 8", ".word 7", ".byte 1, 2",
+                            ".half 3", ".word 1 2 3", ".word -1", ".dword 9"])
         elif k < 0.8:
             s = asm.label(rng) + str(rng.randrange(100)) + ":"
         elif k < 0.9:
